@@ -2,14 +2,16 @@ import RichModel.Lemmas.AnsiChars
 /-!
 # C03 — the ANSI stream written means exactly what the styled segments say
 
-Property theorems only (helper lemmas live in `Lemmas/AnsiTerm`, `AnsiCodes`, `AnsiRender`,
-`AnsiBuffer`, `AnsiShape`).
+Property theorems only, 32 of them (helper lemmas live in `Lemmas/AnsiTerm`, `AnsiCodes`, `AnsiRender`,
+`AnsiBuffer`, `AnsiShape`, `AnsiSpec`, `AnsiWire`, `AnsiChars`; this file imports `Lemmas/AnsiChars`, which
+brings the others in).
 
 * encoder model: `Model/AnsiRender.lean` — `Style._make_ansi_codes` with its per-object `_ansi` cache
   (`StyleObj.ansi`; the cache is *state*), `Style.render`, `Segment.remove_color`,
   `Console._render_buffer`, and *histories* (`Op`, `runOps`) of such calls on shared `Style` objects
   under changing colour systems, with `copy()` / `update_link()` carrying the cache along;
-* independent decoder: `Model/AnsiTerm.lean` — `interp`, written from ECMA-48 / xterm / OSC 8;
+* independent decoder: `Model/AnsiTerm.lean` — the character-level `tokenize` and the token-level `interp`,
+  written from ECMA-48 / xterm / OSC 8;
 * specification: `expected` / `expectedCells` — the aspects that are set *and* true, the colours after
   the documented down-conversion (`downgrade`, property C18), the hyperlink; control segments only on
   a terminal.
